@@ -26,8 +26,8 @@ ASSUMPTIONS = [
     "symbolic results are compared after sympy.expand/Poly with symbols identified by name",
 ]
 
-QUICK = ["sys3_q", "sys2_q", "orders_q", "frac_q", "hist_q", "zero_q"]
-THOROUGH = ["sys3_t", "sys2_t", "cstr_t", "orders_t", "frac_t", "phase_t", "feedmap_t", "hist_t", "zero_t"]
+QUICK = ["sys3_q", "sys2_q", "orders_q", "frac_q", "hist_q", "zero_q", "half_q"]
+THOROUGH = ["sys3_t", "sys2_t", "cstr_t", "orders_t", "frac_t", "phase_t", "feedmap_t", "hist_t", "zero_t", "half_t"]
 # coverage (vacuity guard) is read on the small slice that takes all three generator actions
 ACTIONS = {
     "frac_q": ["GenAdd", "SetState", "Feed"],
@@ -86,7 +86,7 @@ def _compare(bad, case, obs, mode, flags):
             bad.append((dict(fn=fn, keys=keys, mode=mode, error=o["raise"], **flags), o, "system builds"))
             continue
         want = _expected(case, field, mode)
-        if want is None:
+        if want is None or (field == "st_coeff" and not case["exp"]["coeffint"]):
             continue
         if field == "st_rkeys" and isinstance(o, list):
             o = [sorted(k) for k in o]
@@ -99,7 +99,17 @@ def _compare(bad, case, obs, mode, flags):
 
 
 def replay_case(case):
-    """-> list of (key, observed, expected) disagreements."""
+    """-> list of (key, observed, expected) disagreements.  Total: whatever the code under test
+    returns or raises ends as an entry of this list, never as a crash of the worker."""
+    try:
+        return _replay_case(case)
+    except Exception as e:   # an observation the projections did not anticipate
+        return [(dict(fn="observation", keys="-", mode="-", error=type(e).__name__, cls=case.get("cls", ""),
+                      feed=False, untouched=False, hist=0, phases=False, pform="-", container="-"),
+                 {"raise": type(e).__name__, "msg": str(e)[:200]}, "an observable result")]
+
+
+def _replay_case(case):
     cin = case["in"]
     bad = []
     base = {"feed": bool(cin["feed"]["on"]), "untouched": "-u" in case["cls"], "cls": case["cls"],
